@@ -39,7 +39,7 @@ NONNEG_EXCLUDE = {('1040_recovery_rebate_credit_wkst', '1'), ('nc_d-400_sa', 'la
 
 def plan(tier, seed):
     from hv import scen
-    n = 8 if tier == 'quick' else 250
+    n = 8 if tier == 'quick' else 800
     sp = []
     for y in (2021, 2022, 2023):
         for g in ([scen.FAMILIES[0:4], scen.FAMILIES[4:8], scen.FAMILIES[8:12]] if tier == 'quick' else [[f] for f in scen.FAMILIES]):
